@@ -3,7 +3,7 @@ import Model.TaskQueue
 import Std.Data.HashSet
 /-! Model driver of C15 (task queue).  Area `forced`: scripts of environment actions
 
-      reset | new <workers> <depth> <inCap> [<handler mode 0..3>] | sub <n|p>+ | rel <id>* | shut | relshut <id>* | obs | end
+      reset | new <workers> <depth> <inCap> [<handler mode 0..3>] | sub <n|p|s|r|x|e|z|f|w|0|v>+ | rel <id>* | shut | relshut <id>* | obs | end
 
   (anything after `##` on a line is a hint for the harness and is ignored here).  After each line the model runs its
   internal steps (dispatcher, workers taking and reporting, released tasks finishing, the sequential submitter's
@@ -128,9 +128,11 @@ def step (d : D) (line : String) : D × String :=
   | ["sub", flags] =>
     if !d.live then (d, "bad-op") else
     let fl := flags.toList
-    if fl.isEmpty ∨ !fl.all (fun ch => ch == 'n' || ch == 'p') then (d, "bad-op")
+    -- 'n' = the task returns; any other letter = it panics, the letter naming the panic value (string, error, runtime
+    -- error, *errs.Error, typed nil, …): the model treats all panic values alike
+    if fl.isEmpty ∨ !fl.all (fun ch => "npsrxezfw0v".toList.contains ch) then (d, "bad-op")
     else if allB d.nodes (fun n => n.1.shut == 0) then
-      settle d "" (d.nodes.map fun n => (n.1, n.2 ++ fl.map (· == 'p')))
+      settle d "" (d.nodes.map fun n => (n.1, n.2 ++ fl.map (· != 'n')))
     else settle d "sub-refused " d.nodes
   | "rel" :: ids =>
     if !d.live then (d, "bad-op") else
